@@ -204,6 +204,10 @@ func genStream13(g *Rng) (string, int) {
 		if g.Chance(8) {
 			continue // empty document
 		}
+		if g.Chance(6) {
+			b.WriteString(g.Pick([]string{"{}\n", "{} # empty map\n", "# head of empty\n{}\n"}))
+			continue
+		}
 		b.WriteString(genDoc13(g, i))
 	}
 	if g.Chance(20) {
@@ -261,6 +265,140 @@ func keepTailCases(r *Run) {
 			emit([]string{doc(b1), "k: " + ind + "\n  a"}, "", false)
 		}
 	}
+}
+
+// decodesToDocument: the chunk holds a YAML document whose root is not null.
+func decodesToDocument(chunk string) bool {
+	var n yaml3.Node
+	if err := yaml3.NewDecoder(strings.NewReader(chunk)).Decode(&n); err != nil {
+		return false
+	}
+	return n.Kind == yaml3.DocumentNode && len(n.Content) > 0 && n.Content[0].Tag != "!!null"
+}
+
+// Which texts between separators are documents for ByteReader (default options) — pinned from the reader's
+// behaviour on the unchanged tree: a root that is a mapping, even an EMPTY one, is a document; a null root,
+// nothing, or only comments is no document; any other root (sequence, scalar) makes Read fail.
+const (
+	formDoc    = 0
+	formSkip   = 1
+	formReject = 2
+)
+
+type docForm struct {
+	text string
+	kind int
+	sig  string // JSON of the document as it must be read
+}
+
+var c13DocForms = []docForm{
+	{"a: 1\n", formDoc, `{"a":1}`},
+	{"{}\n", formDoc, `{}`},
+	{"{} # line comment on empty map\n", formDoc, `{}`},
+	{"# head comment of empty map\n{}\n", formDoc, `{}`},
+	{"", formSkip, ""},
+	{"# only a comment\n", formSkip, ""},
+	{"null\n", formSkip, ""},
+	{"[]\n", formReject, ""},
+	{"b:\n  c: {}\n  d: []\n", formDoc, `{"b":{"c":{},"d":[]}}`},
+}
+
+func emptyDocCases(r *Run) {
+	var rec func(cur []int, n int)
+	rec = func(cur []int, n int) {
+		if len(cur) > 0 {
+			var parts []string
+			var want []string
+			reject := false
+			for _, i := range cur {
+				f := c13DocForms[i]
+				parts = append(parts, f.text)
+				switch f.kind {
+				case formDoc:
+					want = append(want, f.sig)
+				case formReject:
+					reject = true
+				}
+			}
+			s := strings.Join(parts, "---\n")
+			desc := map[string]string{"kind": "docforms", "s": s}
+			report := func(law, cls, detail string) {
+				r.Violation(OracleViolation{Law: law, Class: cls, Detail: detail, Replay: desc})
+			}
+			// (1) default reader: a sequence document cannot carry the reader annotations => Read fails
+			nodes, err := (&kio.ByteReader{Reader: strings.NewReader(s)}).Read()
+			// (2) without reader annotations (kio.FromBytes): a sequence root is a document like any other
+			nodesOmit, errOmit := (&kio.ByteReader{Reader: strings.NewReader(s), OmitReaderAnnotations: true}).Read()
+			var wantOmit []string
+			for _, i := range cur {
+				switch f := c13DocForms[i]; f.kind {
+				case formDoc:
+					wantOmit = append(wantOmit, f.sig)
+				case formReject:
+					wantOmit = append(wantOmit, "[]")
+				}
+			}
+			sigs := func(ns []*kyaml.RNode) []string {
+				var got []string
+				for _, n := range ns {
+					j, err := n.MarshalJSON()
+					if err != nil {
+						got = append(got, "<"+err.Error()+">")
+						continue
+					}
+					var v interface{}
+					if json.Unmarshal(j, &v) == nil {
+						if b, err := json.Marshal(normaliseMeta(v, true)); err == nil {
+							j = b
+						}
+					}
+					got = append(got, string(j))
+				}
+				return got
+			}
+			r.Count("docforms", fmt.Sprintf("docs=%d reject=%v", len(want), reject))
+			r.AddEval("docforms|"+s, len(want) > 1)
+			if errOmit != nil {
+				report("roundtrip_ok", "C13/roundtrip-rejected", "reader (no annotations) rejected the stream: "+errOmit.Error())
+			} else if got := sigs(nodesOmit); !reflect.DeepEqual(got, wantOmit) {
+				cls := "C13/reader-doc-order"
+				if len(got) != len(wantOmit) {
+					cls = "C13/reader-doc-count"
+				}
+				report("roundtrip_order", cls, fmt.Sprintf("read (no annotations) %q, the stream holds %q", got, wantOmit))
+			}
+			switch {
+			case reject && err == nil:
+				report("roundtrip_order", "C13/reader-accepts-non-mapping-document", fmt.Sprintf("a stream with a sequence document was read without error (%d documents)", len(nodes)))
+			case !reject && err != nil:
+				report("roundtrip_ok", "C13/roundtrip-rejected", "reader rejected the stream: "+err.Error())
+			case !reject:
+				if got := sigs(nodes); !reflect.DeepEqual(got, want) {
+					cls := "C13/reader-doc-order"
+					if len(got) != len(want) {
+						cls = "C13/reader-doc-count"
+					}
+					report("roundtrip_order", cls, fmt.Sprintf("read %q, the stream holds %q", got, want))
+				}
+				// index annotations follow the documents
+				if nodes2, err := (&kio.ByteReader{Reader: strings.NewReader(s)}).Read(); err == nil {
+					for k, n := range nodes2 {
+						if v := n.GetAnnotations()[kioutil.IndexAnnotation]; v != fmt.Sprint(k) {
+							report("roundtrip_order", "C13/reader-index", fmt.Sprintf("document %d carries index %q", k, v))
+						}
+					}
+				}
+				roundTripOracle(r, s)
+			}
+		}
+		if n == 0 {
+			return
+		}
+		for i := range c13DocForms {
+			rec(append(append([]int{}, cur...), i), n-1)
+		}
+	}
+	rec(nil, 3)
 }
 
 // ---------- round trip oracles ----------
@@ -404,6 +542,9 @@ func chunkComments(s string) ([]string, error) {
 			}
 		}
 		d = strings.Join(lines, "\n")
+		if !decodesToDocument(d) {
+			continue // a chunk without any node (empty, null, comment only): its comments belong to no node
+		}
 		c, err := commentsOf(d)
 		if err != nil {
 			return nil, err
@@ -1055,6 +1196,114 @@ func pkgWriterCases(r *Run, rng *Rng, nBatches int) {
 	}
 }
 
+// ---------- sequences of Writes on one LocalPackageReadWriter ----------
+
+var c13SeqFiles = []string{"a.yaml", "d/b.yaml", "d/c.yaml", "d/e/f.yaml"}
+var c13SeqNew = []string{"n1.yaml", "d/n2.yaml", "./a.yaml", "d/./b.yaml"}
+var c13SeqBad = []string{"../outside.yaml", "/abs.yaml", "", "d/../../outside.yaml", "../pkg-evil/x.yaml", "/outside/secret.yaml", "..", "a/../../b"}
+
+func readWriterSequences(r *Run, rng *Rng, n int) {
+	for it := 0; it < n; it++ {
+		g := rng.Fork()
+		fs, err := newPkgFS()
+		if err != nil {
+			return
+		}
+		for i, f := range c13SeqFiles {
+			_ = fs.WriteFile("/pkg/"+f, []byte(fmt.Sprintf("apiVersion: v1\nkind: ConfigMap\nmetadata:\n  name: f%d\n---\napiVersion: v1\nkind: Secret\nmetadata:\n  name: s%d\n", i, i)))
+		}
+		rw := &kio.LocalPackageReadWriter{PackagePath: "/pkg", FileSystem: filesys.FileSystemOrOnDisk{FileSystem: fs}}
+		nodes, err := rw.Read()
+		if err != nil || len(nodes) != 2*len(c13SeqFiles) {
+			r.Violation(OracleViolation{Law: "delete_confined", Class: "C13/pkg-read-failed", Detail: fmt.Sprint(err), Replay: "pkg-sequence"})
+			return
+		}
+		// step kinds: rejected, valid, valid subset (the order of the task: refused Write, valid retry, subset)
+		nSteps := 2 + g.Intn(3)
+		var steps [][]string
+		var obsTerms []string
+		var trace []string
+		for st := 0; st < nSteps; st++ {
+			wantBad := (st == 0 && g.Chance(70)) || (st > 0 && g.Chance(25))
+			var anns []string
+			var out []*kyaml.RNode
+			for _, n0 := range nodes {
+				if st > 0 && g.Chance(30) {
+					continue // dropped in this step
+				}
+				n := n0.Copy()
+				p := n.GetAnnotations()[kioutil.PathAnnotation]
+				switch g.Intn(6) {
+				case 0:
+					p = g.Pick(c13SeqFiles)
+				case 1:
+					p = g.Pick(c13SeqNew)
+				}
+				_ = n.PipeE(kyaml.SetAnnotation(kioutil.PathAnnotation, p))
+				_ = n.PipeE(kyaml.SetAnnotation(kioutil.LegacyPathAnnotation, p))
+				anns = append(anns, p)
+				out = append(out, n)
+			}
+			if wantBad && len(out) > 0 {
+				k := g.Intn(len(out))
+				p := g.Pick(c13SeqBad)
+				_ = out[k].PipeE(kyaml.SetAnnotation(kioutil.PathAnnotation, p))
+				_ = out[k].PipeE(kyaml.SetAnnotation(kioutil.LegacyPathAnnotation, p))
+				anns[k] = p
+			}
+			fs.muts = nil
+			desc := map[string]interface{}{"kind": "pkg-sequence", "seed_iteration": it, "steps_so_far": append(append([][]string{}, steps...), anns)}
+			cls, msg := protect(func() error { return rw.Write(out) })
+			checkMuts(r, fs, "delete_confined", "C13/sequence-escape", desc)
+			var dels []string
+			seen := map[string]bool{}
+			for _, m := range fs.muts {
+				op, p, _ := strings.Cut(m, " ")
+				if op != "RemoveAll" {
+					continue
+				}
+				ok := false
+				for _, f := range c13SeqFiles {
+					if filepath.Clean(p) == "/pkg/"+f {
+						ok = true
+					}
+				}
+				if !ok {
+					r.Violation(OracleViolation{Law: "delete_confined", Class: "C13/delete-not-read", Detail: fmt.Sprintf("step %d: RemoveAll of something that was not read from the package: %s", st, p), Replay: desc})
+				}
+				if !seen[p] {
+					seen[p] = true
+					dels = append(dels, p)
+				}
+			}
+			if cls == ClsPanic {
+				r.Violation(OracleViolation{Law: "no_panic", Class: "C13/pkg-readwrite-panic", Detail: msg, Replay: desc})
+			}
+			if cls != ClsOk && len(dels) > 0 {
+				r.Violation(OracleViolation{Law: "delete_confined", Class: "C13/delete-after-refused-write", Detail: fmt.Sprintf("step %d was refused (%s) but deleted %v", st, msg, dels), Replay: desc})
+			}
+			if b, err := fs.ReadFile("/outside/secret.yaml"); err != nil || string(b) != "secret: 1\n" {
+				r.Violation(OracleViolation{Law: "delete_confined", Class: "C13/sequence-escape", Detail: fmt.Sprintf("step %d: a file outside the package changed", st), Replay: desc})
+			}
+			sort.Strings(dels)
+			obs := ClsOk
+			if cls != ClsOk {
+				obs = ClsErr
+			}
+			steps = append(steps, anns)
+			obsTerms = append(obsTerms, fmt.Sprintf("(%s, %s)", obs, coqStrList(dels)))
+			trace = append(trace, fmt.Sprintf("%s:%d", obs, len(dels)))
+			r.Count("pkg_sequence_step", obs)
+		}
+		var stepTerms []string
+		for _, a := range steps {
+			stepTerms = append(stepTerms, coqStrList(a))
+		}
+		r.AddCase(fmt.Sprintf("(P_seq \"/pkg\" %s [%s] [%s])", coqStrList(c13SeqFiles), strings.Join(stepTerms, "; "), strings.Join(obsTerms, "; ")),
+			map[string]interface{}{"kind": "pkg-sequence", "steps": steps, "trace": trace}, true)
+	}
+}
+
 // ---------- the run ----------
 
 func runC13(r *Run, rng *Rng, tier string) error {
@@ -1097,10 +1346,12 @@ func runC13(r *Run, rng *Rng, tier string) error {
 		roundTripOracle(r, s)
 	}
 	keepTailCases(r)
+	emptyDocCases(r)
 	// 3. annotations
 	annotationCases(r, rng.Fork())
 	// 4. package IO
 	pkgWriterCases(r, rng.Fork(), nBatches)
+	readWriterSequences(r, rng.Fork(), nBatches)
 	return nil
 }
 
